@@ -10,5 +10,5 @@ COQ_FILES = ["Props/C03.v"]
 def correspondence(ctx):
     th = ctx.tier == "thorough"
     WC.world_suite(ctx, "C03", tags={"pre", "load", "init"}, walks_per_spec=4 if th else 1, n_generated=30 if th else 8,
-                   n_steps=200 if th else 70, perturb=0.15, resets=0, n_agents=(1, 3), shared_every=3)
+                   n_steps=200 if th else 70, perturb=0.15, resets=25, n_agents=(1, 3), shared_every=3)
     ctx.assumptions += ASSUME
